@@ -63,4 +63,45 @@ def pureElection : List String → Option String
         pure (showOutcome (selectProducers sortPD (permOf tab) nc rc ds h))
   | _ => none
 
+def secNs (t : Int) : String := s!"{t / nsPerSec} {t % nsPerSec}"
+def secDotNs (t : Int) : String := s!"{t / nsPerSec}.{t % nsPerSec}"
+
+def parseAddrs (s : String) : Option (List Bytes) :=
+  if s = "-" then some [] else (s.splitOn ",").mapM ofHex
+
+def mkCtx (genesisSec blockTime : Int) (nodeCount : Nat) : Ctx := ⟨genesisSec * nsPerSec, blockTime, nodeCount⟩
+
+def pureTicker : List String → Option String
+  | ["to-tick", start, iv, t] => do
+      let start ← start.toInt?
+      let iv ← iv.toInt?
+      let t ← t.toInt?
+      let tk : Ticker := ⟨start * nsPerSec, wrap64 (iv * nsPerSec)⟩
+      match tk.toTick (t * nsPerSec) with
+      | none => pure "panic"
+      | some k => pure (toString k)
+  | ["to-time", start, iv, tick] => do
+      let start ← start.toInt?
+      let iv ← iv.toInt?
+      let tick ← tick.toNat?
+      let tk : Ticker := ⟨start * nsPerSec, wrap64 (iv * nsPerSec)⟩
+      let (s, e) := tk.toTime tick
+      pure s!"{secNs s} {secNs e}"
+  | ["sched", g, bt, nc, tick, addrs] => do
+      let g ← g.toInt?
+      let bt ← bt.toInt?
+      let nc ← nc.toNat?
+      let tick ← tick.toNat?
+      let addrs ← parseAddrs addrs
+      let ev := generateProducers (mkCtx g bt nc) tick addrs
+      let out := " ".intercalate (ev.map fun p => s!"{secDotNs p.startTime}:{secDotNs p.endTime}:{toHex p.producer}")
+      pure s!"{ev.length} {out}"
+  | ["proof-time", g, bt, nc, tick] => do
+      let g ← g.toInt?
+      let bt ← bt.toInt?
+      let nc ← nc.toNat?
+      let tick ← tick.toNat?
+      pure (secNs (genProofTime (mkCtx g bt nc) tick))
+  | _ => none
+
 end ZV.Driver
